@@ -540,13 +540,13 @@ func c16Attrs(p *chk.Prog, r *chk.Report) {
 						})
 						return found
 					}
-					okLen = okLen && !loopSkipsWithout(g, rs, wr, nil) && !loopHasBreak(g, rs) && chk.PackedSize(f.Info().TypeOf(rs.Value)) == 4
+					okLen = okLen && !loopSkipsWithout(g, rs, wr, chk.NoGuard) && !loopHasBreak(g, rs) && chk.PackedSize(f.Info().TypeOf(rs.Value)) == 4
 				}
 				// the list gets one element per community
 				okFill := false
 				for _, rs := range f.RangeLoops(func(e ast.Expr) bool { return f.MatchNew("A.Communities", e) != nil }) {
 					app := f.IsAssignPat("L", "append(L, V)", chk.H("L", f.IsObj(list)))
-					okFill = !loopSkipsWithout(g, rs, app, nil) && !loopHasBreak(g, rs)
+					okFill = !loopSkipsWithout(g, rs, app, chk.NoGuard) && !loopHasBreak(g, rs)
 				}
 				okLen = okLen && okFill
 			}
@@ -669,7 +669,7 @@ func c16Prefix(p *chk.Prog, r *chk.Report) {
 			}
 			lenB := f.ContainsPat("B.WriteByte(byte(O))", chk.H("B", isParamIdx(f, 0)), chk.H("O", o))
 			body := f.ContainsPat("B.Write(P.IP.To4()[:bytesForBits(O)])", chk.H("B", isParamIdx(f, 0)), chk.H("P", pfx), chk.H("O", o))
-			ok = !loopSkipsWithout(g, rs, lenB, nil) && !loopSkipsWithout(g, rs, body, nil) && !loopHasBreak(g, rs)
+			ok = !loopSkipsWithout(g, rs, lenB, chk.NoGuard) && !loopSkipsWithout(g, rs, body, chk.NoGuard) && !loopHasBreak(g, rs)
 			// order: length byte first, and nothing else written in between
 			for _, s := range g.Find(lenB) {
 				if _, isStmt := s.Node.(*ast.ExprStmt); !isStmt {
@@ -786,7 +786,7 @@ func c16Narrow(p *chk.Prog, r *chk.Report) {
 			c := s.Node.(*ast.CallExpr)
 			same := func(e ast.Expr) bool { return e == ast.Expr(c) }
 			_ = same
-			es := g.EdgesImplying(func(ft chk.Fact) bool {
+			es := g.EdgesImplying(chk.GFunc(func(ft chk.Fact) bool {
 				xx, yy, eq, ok := chk.EqParts(ft)
 				if !ok || eq {
 					return false
@@ -806,7 +806,7 @@ func c16Narrow(p *chk.Prog, r *chk.Report) {
 				}
 				rhs, _ := g.DefOf(id, g.FactSite(id))
 				return rhs != nil && ast.Unparen(rhs) == ast.Expr(c)
-			})
+			}))
 			ok := len(es) >= 1
 			for _, e := range es {
 				if g.BranchAlways(e, func(n ast.Node) bool { return isErrReturn(f, n) }).Found {
